@@ -81,6 +81,8 @@ package connectconformance
 // checkHeaders: no discrepancy exactly when every expected header is present among the
 // actual ones (any letter case, extra actual headers allowed) with the same canonical values.
 //@ func checkHeaders
+//@   //# loop ordinals follow the position of the first positioned instruction of the header: the second loop carries the
+//@   //# declaration position of errs and is therefore loop 0, the loop that fills actualHeaders is loop 1 (see `govc loops`)
 //@   modifies nothing
 //@   ensures @iff (len(result) == 0) == old(hdrsOK(expected, actual, len(expected)))
 //@   assert_at "reflect.DeepEqual(expectedVals, actualVals)": len(expectedVals) == atpre(cLen(expected[rangeindex + 1].Value, len(expected[rangeindex + 1].Value))) &&
@@ -92,11 +94,11 @@ package connectconformance
 //@   assert_at "reflect.DeepEqual(expectedVals, actualVals)": (atpre(cLen(expected[rangeindex + 1].Value, len(expected[rangeindex + 1].Value))) == atpre(cLen(actual[lastIdx(actual, len(actual), strLower(expected[rangeindex + 1].Name))].Value, len(actual[lastIdx(actual, len(actual), strLower(expected[rangeindex + 1].Name))].Value))) && (forall p int :: 0 <= p && p < atpre(cLen(expected[rangeindex + 1].Value, len(expected[rangeindex + 1].Value))) ==> atpre(cItem(expected[rangeindex + 1].Value, len(expected[rangeindex + 1].Value), p)) == atpre(cItem(actual[lastIdx(actual, len(actual), strLower(expected[rangeindex + 1].Name))].Value, len(actual[lastIdx(actual, len(actual), strLower(expected[rangeindex + 1].Name))].Value), p)))) ==>
 //@        (len(expectedVals) == len(actualVals) && (forall i int :: 0 <= i && i < len(expectedVals) ==> expectedVals[i] == actualVals[i]))
 //@   assert_at "reflect.DeepEqual(expectedVals, actualVals)": atpre(canonSame(expected[rangeindex + 1].Value, actual[lastIdx(actual, len(actual), strLower(expected[rangeindex + 1].Name))].Value)) == (atpre(cLen(expected[rangeindex + 1].Value, len(expected[rangeindex + 1].Value))) == atpre(cLen(actual[lastIdx(actual, len(actual), strLower(expected[rangeindex + 1].Name))].Value, len(actual[lastIdx(actual, len(actual), strLower(expected[rangeindex + 1].Name))].Value))) && (forall p int :: 0 <= p && p < atpre(cLen(expected[rangeindex + 1].Value, len(expected[rangeindex + 1].Value))) ==> atpre(cItem(expected[rangeindex + 1].Value, len(expected[rangeindex + 1].Value), p)) == atpre(cItem(actual[lastIdx(actual, len(actual), strLower(expected[rangeindex + 1].Name))].Value, len(actual[lastIdx(actual, len(actual), strLower(expected[rangeindex + 1].Name))].Value), p))))
-//@   loop 0: invariant actualHeaders != nil && fresh(actualHeaders)
+//@   loop 1: invariant actualHeaders != nil && fresh(actualHeaders)
 //@           invariant 0 <= rangeindex + 1 && rangeindex + 1 <= len(actual)
 //@           invariant forall k string :: has(actualHeaders, k) == (atpre(lastIdx(actual, rangeindex + 1, k)) >= 0)
 //@           invariant forall k string :: has(actualHeaders, k) ==> actualHeaders[k] == actual[atpre(lastIdx(actual, rangeindex + 1, k))].Value
-//@   loop 1: invariant actualHeaders != nil && fresh(actualHeaders) && (slicebase(errs) == 0 || fresh(errs))
+//@   loop 0: invariant actualHeaders != nil && fresh(actualHeaders) && (slicebase(errs) == 0 || fresh(errs))
 //@           invariant forall k string :: has(actualHeaders, k) == (atpre(lastIdx(actual, len(actual), k)) >= 0)
 //@           invariant forall k string :: has(actualHeaders, k) ==> actualHeaders[k] == actual[atpre(lastIdx(actual, len(actual), k))].Value
 //@           invariant 0 <= rangeindex + 1 && rangeindex + 1 <= len(expected)
